@@ -259,7 +259,7 @@ def run(ctx):
              "oracle: the context recorded inside every method (request annotations, correlation id, sequence number, flags, serializer, connection and peer) is that of its own "
              "request, also after a yield and inside the oneway thread; every RESULT on the wire carries only annotations set by the request it answers; CONNECTOK, CONNECTFAIL "
              "and ping replies carry none; each client sees only its own call's annotations; distinct = observation vectors",
-        extra={"configs": len(cfgs)})
+        extra={"configs": len(cfgs), "budgets_p_r": sorted({(c["p"], c["r"]) for c in cfgs}), "bound_completed": "every execution within each configuration's (preemption, reordering) budget was run to completion"})
     return {"violations": stats.violations, "coverage": cov,
             "assumptions": ["response annotations are tagged with the id of the request that set them, so ownership is decided on the wire, not by the client's view alone"]}
 
